@@ -16,6 +16,19 @@ def do_call(ip, e, st):
     outs = []
     if ip.spec_mode and isinstance(e.func, ast.Name) and e.func.id in SPEC_FORMS:
         return [(st, SPEC_FORMS[e.func.id](ip, e, st))]
+    if not ip.spec_mode and isinstance(e.func, ast.Name) and e.func.id in ("all", "any") and len(e.args) == 1 \
+            and not e.keywords and isinstance(e.args[0], ast.GeneratorExp):
+        # all(<genexp>) / any(<genexp>) whose items fork or raise when evaluated: item by item with python's short
+        # circuit (only where the functional encoding below refuses the expression: nothing changes for the others)
+        from .lib_flow import all_any_sequential
+        r = all_any_sequential(ip, e, st, lambda: do_call_(ip, e, st))
+        if r is not None:
+            return r
+    return do_call_(ip, e, st)
+
+
+def do_call_(ip, e, st):
+    outs = []
     for s, f in ip.ev(e.func, st):
         # arguments (left to right)
         pos_exprs, splice = [], []
@@ -26,8 +39,6 @@ def do_call(ip, e, st):
             else:
                 pos_exprs.append(a)
         kw_names = [k.arg for k in e.keywords]
-        if any(k is None for k in kw_names):
-            raise U("**kwargs call")
         for s2, vals in ip.ev_many(pos_exprs + [k.value for k in e.keywords], s):
             if isinstance(f, NoneV) and not ip.spec_mode:
                 # calling None: TypeError ('NoneType' object is not callable) once the arguments have been evaluated
@@ -53,11 +64,28 @@ def do_call(ip, e, st):
                             f = Fun("contract", contract=alt)
                             pos.append(v)
                             continue
+                        if isinstance(f, Opaque) and f.sort == "Obj" and len(pos_exprs) == 1 and not e.keywords:
+                            # an abstract callable applied to *xs: a function of the callable and the argument sequence
+                            from .lib_flow import StarArgs
+                            pos.append(StarArgs(v))
+                            continue
                         raise U("star-call with a sequence of symbolic length")
                     pos += view.items
                 else:
                     pos.append(v)
-            kws = dict(zip(kw_names, vals[len(pos_exprs):]))
+            kws = {}
+            for kn, kv in zip(kw_names, vals[len(pos_exprs):]):
+                if kn is None:
+                    # f(**d): d must be a dictionary with concrete string keys (a **kwargs dictionary, a display): its
+                    # items become keyword arguments (python raises TypeError for a keyword given twice)
+                    if not (isinstance(kv, Ref) and isinstance(s2.heap[kv.cid], PyDictCell)):
+                        raise U("**kwargs call with a dictionary whose keys are not known")
+                    for dk, dv in s2.heap[kv.cid].items.items():
+                        if dk in kws or dk in kw_names:
+                            raise U("**kwargs call: keyword %s given twice" % dk)
+                        kws[dk] = dv
+                else:
+                    kws[kn] = kv
             outs += call_value(ip, s2, f, pos, kws, e)
     return outs
 
@@ -121,6 +149,11 @@ def call_value(ip, st, f, pos, kws, node=None):
         c = ip.contracts.find(f.name, f.mod.relpath)
         if c is not None:
             return apply_contract(ip, st, c, pos, kws)
+        # a module-level helper without a contract: executed in place from its real AST (not modular; listed in the
+        # evidence as an inlined helper); generators and recursion are refused
+        c = auto_inline_contract(ip, f.mod.relpath, f.name)
+        if c is not None:
+            return inline_contract(ip, st, c, pos, kws)
         raise U("call of %s.%s: no contract" % (f.mod.modname, f.name))
     if k == "external":
         raise U("call of external %s.%s: no library contract" % (f.mod, f.name))
@@ -245,12 +278,26 @@ def conform(ip, st, v, ty):
             return v
         if head == "Val" and isinstance(v, Ref) and isinstance(st.heap[v.cid], ValCell):
             return v
-        if head == "Val" and isinstance(v, (Num, Bool, NoneV, Str)):
+        if head == "Val" and (isinstance(v, (Num, Bool, NoneV, Str)) or (isinstance(v, Opaque) and v.sort == "Key")):
             # a python scalar where a context value is expected: its denotation as a value (dicts.scalar)
             from .dicts import scalar
             return Opaque(scalar(ip, st, v))
         if head == "Key" and isinstance(v, Str):
             return Opaque(ip.reg.key(v.s))
+        if head == "Val" and isinstance(v, Sentinel) and v.name.startswith("anon"):
+            from .dicts import scalar          # a local `object()` sentinel passed where a context value is expected
+            return Opaque(scalar(ip, st, v))
+        if head == "Val" and isinstance(v, Ref) and not v.path and isinstance(st.heap.get(v.cid), PyDictCell) \
+                and st.heap[v.cid].items and ip.c is not None and ip.c.dict_model == "Val":
+            # (units with dict_model="Val" only) a non-empty dictionary display with literal keys
+            # (`{"output": {"filetype": "tex"}}`) where a context VALUE is expected: its denotation (dicts.dterm), exactly
+            # as for a ValCell argument of a `Val` parameter
+            from .dicts import dterm
+            from .interp import Unsupported
+            try:
+                return Opaque(dterm(ip, st, v))
+            except Unsupported as e:
+                raise Mismatch("%s (%s)" % (ty, e))
         raise Mismatch(ty)
     if head == "Dict":
         if isinstance(v, Ref) and isinstance(st.heap[v.cid], ValCell):
@@ -579,8 +626,9 @@ def places_of(ip, st, env, text):
     return ("value", v, None)
 
 
-def havoc_value(ip, st, v, name):
-    """replace the content of a mutable value by fresh content of the same shape; returns the new SV for fields"""
+def havoc_value(ip, st, v, name, deep=True):
+    """replace the content of a mutable value by fresh content of the same shape; returns the new SV for fields
+    (deep=False: only the object itself is known to change, not the objects stored in it -- used by pyvc/dictobj.py)"""
     if isinstance(v, Ref) and type(st.heap[v.cid]).__name__ == "StructLstCell":
         from .histlib import struct_havoc       # ghost `out` of a generator yielding tuples
         st.heap[v.cid] = struct_havoc(ip, st, st.heap[v.cid], name)
@@ -598,11 +646,16 @@ def havoc_value(ip, st, v, name):
             return v
         if isinstance(cell, ValCell):
             nt = ip.reg.new(name, "Val")
+            if ip.c is not None and ip.c.ghost.get("dict_objects"):
+                from . import dictobj      # dictionaries as objects: the objects linked below this one
+                dictobj.havoc_hook(ip, st, v, deep)
             ip.store(st, v, nt)
             if not v.path:
                 pass
             return v
         if isinstance(cell, IterCell):
+            if getattr(cell, "kind", None) is not None:
+                raise U("havoc of a special iterator (%s)" % cell.kind)
             st.heap[v.cid] = IterCell(cell.src, ip.reg.new(name + "$cur", "Int"), cell.name, cell.limit)
             cur = st.heap[v.cid].cursor
             st.assume(CMP("<=", cell.cursor, cur))
@@ -613,6 +666,13 @@ def havoc_value(ip, st, v, name):
             return v
         if isinstance(cell, ObjCell):
             raise U("havoc of a whole object: list its fields in `modifies`")
+        if isinstance(cell, PyDictCell) and not v.path:
+            # a dictionary display of the caller (`{}`, {"a": x}) that a callee may change in place: afterwards some
+            # dictionary (unknown items); from now on the cell holds a dictionary VALUE
+            nt = ip.reg.new(name, "Val")
+            st.heap[v.cid] = ValCell(nt)
+            st.assume(T("(isD %s)" % nt.s, "Bool"))
+            return v
         raise U("havoc of " + type(cell).__name__)
     if isinstance(v, Num):
         return Num(ip.reg.new(name, v.sort))
@@ -629,6 +689,15 @@ def havoc_value(ip, st, v, name):
 
 def apply_contract(ip, st, c, args, kws):
     """caller side: check the precondition, havoc the frame, assume the postcondition; fork on declared raises"""
+    ov = (ip.c.ghost.get("assumed_callees") if ip.c is not None else None) or {}
+    if c.qual in ov and ov[c.qual].file == c.file and st.depth == 0:
+        # Contract(ghost={"assumed_callees": {qualname: Contract(..., trusted=True)}}): inside THIS unit the callee is
+        # taken under the given assumed contract (listed as an assumption) instead of its registered one -- for callees
+        # whose arguments the unit has abstracted, so that the registered preconditions cannot be established
+        c = ov[c.qual]
+        if not c.trusted:
+            raise U("assumed_callees: the contract of %s must be trusted=True" % c.qual)
+        ip.assumptions.add("assumed callee contract inside %s: %s (%s)" % (ip.c.name, c.name, c.notes or "no notes"))
     if c.inline:
         if c.qual in ("get_data_context", "get_context", "get_data") and c.file.endswith("flow/functions.py") \
                 and len(args) == 1 and isinstance(args[0], Opaque) and args[0].sort == "V":
@@ -645,6 +714,14 @@ def apply_contract(ip, st, c, args, kws):
         raise U("call of %s: argument does not fit the contract: %s" % (c.name, m))
     if case.trusted:
         ip.assumptions.add("library contract (tier A): %s" % case.name)
+    elst_callee = bool(case.ghost.get("elstate"))
+    if elst_callee:
+        # the callee's contract speaks about element states: its clauses read the caller's current states ...
+        if "$elst" not in st.env:
+            ip.reg.need("Obj")
+            ip.reg.need("St")
+            st.env["$elst"] = Opaque(ip.reg.new("elst", "(Array Obj St)"))
+        env["$elst"] = st.env["$elst"]
     for k, r in enumerate(case.requires):
         goal = eval_spec(ip, st, env, r)
         ip.emit("pre-call", "call %s: requires#%d" % (case.name, k), st, goal)
@@ -660,21 +737,44 @@ def apply_contract(ip, st, c, args, kws):
         if cond == "?":
             ct = ip.reg.new("raises_%s" % exc, "Bool")
         else:
-            ct = eval_spec(ip, st, env, cond)
+            try:
+                ct = eval_spec(ip, st, env, cond)
+            except Exception as ex:
+                if type(ex).__name__ != "Unsupported":
+                    raise
+                # the raise condition cannot be stated for these arguments (it is typed for other callers): may raise
+                ct = ip.reg.new("raises_%s" % exc, "Bool")
+                ip.assumptions.add("raise condition of %s (%s) not evaluable at a call site: taken as `may raise`" % (case.name, exc))
         if ct.s != "false":
             if ip.spec_mode:
                 pass
             else:
                 bad = st.fork(ct, "!%s." % exc)
+                benv = dict(env)
                 if case.raises_frame == "havoc":
                     do_havoc(ip, bad, case, dict(env))
+                    if elst_callee:
+                        benv["$elst"] = Opaque(ip.reg.new("elst", "(Array Obj St)"))
                 for cl in case.exc_ensures.get(exc, []):
-                    bad.assume(eval_spec(ip, bad, dict(env), cl, old=old))
+                    try:
+                        bad.assume(eval_spec(ip, bad, dict(benv), cl, old=old))
+                    except Exception as ex:
+                        if type(ex).__name__ != "Unsupported":
+                            raise
+                        ip.assumptions.add("a postcondition of %s is not evaluable at a call site: not used there" % case.name)
+                if elst_callee:
+                    bad.env["$elst"] = benv["$elst"]
                 ip.raise_(bad, exc)
         normal_conds.append(NOT(ct))
+    if AND(*normal_conds).s == "false" and not ip.spec_mode:
+        return outs          # a case that always raises (raises={"E": "True"}): the call has no normal outcome
     st.assume(AND(*normal_conds))
     env2 = dict(env)
     do_havoc(ip, st, case, env2)
+    if elst_callee:
+        # ... and afterwards the element states are whatever its postcondition says (no frame for element states: every
+        # state is unknown unless a clause determines it)
+        env2["$elst"] = Opaque(ip.reg.new("elst", "(Array Obj St)"))
     if case.ghost.get("alloc"):
         # the callee may create abstract objects: the ghost allocation clock moves on (see histlib)
         from .histlib import call_advances_clock
@@ -699,6 +799,9 @@ def apply_contract(ip, st, c, args, kws):
             env2["out"] = ip.lst_view(out_t)
             res = ip.new_cell(st, IterCell(ip.lst_view(out_t), I(0), name=None))
         env2["result"] = res
+        # the callee's body runs while its result is iterated: consumers that change what it can reach are refused
+        # (builtins_.list_method, extend)
+        st.heap[res.cid].gen_args = [v for v in env.values() if isinstance(v, Ref)]
     elif case.result_alias is not None:
         res = env2[case.result_alias]
         env2["result"] = res
@@ -720,7 +823,15 @@ def apply_contract(ip, st, c, args, kws):
     for cl in case.ensures:
         bind_identity_clause(ip, st, case, env2, cl, old)
     for cl in case.ensures + case.assume_post:
-        st.assume(eval_spec(ip, st, env2, cl, old=old))
+        try:
+            st.assume(eval_spec(ip, st, env2, cl, old=old))
+        except Exception as ex:
+            if type(ex).__name__ != "Unsupported":
+                raise
+            # a postcondition that cannot be stated for these arguments gives the caller no information (sound: less is assumed)
+            ip.assumptions.add("a postcondition of %s is not evaluable at a call site: not used there" % case.name)
+    if elst_callee:
+        st.env["$elst"] = env2["$elst"]
     outs.append((st, res))
     return outs
 
@@ -736,6 +847,9 @@ def bind_identity_clause(ip, st, case, env, text, old):
         node = ip.contracts_parse(text)
     except SyntaxError:
         return
+    if isinstance(node, ast.Compare) and len(node.ops) == 1 and isinstance(node.ops[0], ast.Is) \
+            and isinstance(node.left, ast.Subscript) and ip.c is not None and ip.c.ghost.get("dict_objects"):
+        return bind_item_identity(ip, st, case, env, node, old)
     if not (isinstance(node, ast.Compare) and len(node.ops) == 1 and isinstance(node.ops[0], ast.Is)
             and isinstance(node.left, ast.Attribute)):
         return
@@ -752,8 +866,10 @@ def bind_identity_clause(ip, st, case, env, text, old):
     finally:
         ip.spec_mode -= 1
         ip.oldst = saved
-    if not (isinstance(base, Ref) and isinstance(st.heap.get(base.cid), ObjCell) and isinstance(target, Ref) and not target.path
-            and target.cid in st.heap):
+    if isinstance(base, Ref) and isinstance(st.heap.get(base.cid), ObjCell) and isinstance(target, Fun):
+        pass        # (a function object: an immutable value the field can simply hold)
+    elif not (isinstance(base, Ref) and isinstance(st.heap.get(base.cid), ObjCell) and isinstance(target, Ref) and not target.path
+              and target.cid in st.heap):
         return
     modified = False
     for m in case.modifies:
@@ -771,6 +887,44 @@ def bind_identity_clause(ip, st, case, env, text, old):
     fields = dict(cell.fields)
     fields[node.left.attr] = target
     st.heap[base.cid] = ObjCell(cell.cls, fields)
+
+
+def bind_item_identity(ip, st, case, env, node, old):
+    """caller side (dictionaries as objects, pyvc/dictobj.py) of a postcondition `<dict param>[<key>] is <dict param>`: after
+    the call the item IS that object -- the link is recorded, so that the caller's later uses of either name see one object"""
+    from . import dictobj
+    s = spec_state(st, env)
+    ip.spec_mode += 1
+    saved = ip.oldst
+    ip.oldst = old
+    try:
+        try:
+            base = ip.ev1(node.left.value, s)
+            key = ip.key_term(ip.ev1(node.left.slice, s))
+            target = ip.ev1(node.comparators[0], s)
+        except Exception:
+            return
+    finally:
+        ip.spec_mode -= 1
+        ip.oldst = saved
+    if not (dictobj.is_root_dict(st, base) and dictobj.is_root_dict(st, target)) or base.cid == target.cid:
+        return
+    modified = False
+    for m in case.modifies:
+        if m == "fs":
+            continue
+        try:
+            kind, b, f = places_of(ip, st, env, m)
+        except Exception:
+            continue
+        if kind == "value" and isinstance(b, Ref) and b.cid == base.cid and not b.path:
+            modified = True
+    if not modified or dictobj.is_frozen(st, base.cid) or target.cid in dictobj.ancestors(st, base.cid):
+        return
+    dictobj.cut_children(ip, st, base.cid, key)
+    d = dictobj.get(st)
+    dictobj.put(st, dictobj.Links(d.links + ((target.cid, base.cid, key, "live"),), d.frozen, d.kids_frozen))
+    dictobj.after_store(ip, st, target.cid)
 
 
 def do_havoc(ip, st, case, env):
@@ -822,6 +976,28 @@ def do_havoc(ip, st, case, env):
             st.heap[base.cid] = ObjCell(cell.cls, fields)
         else:
             havoc_value(ip, st, base, "hv_" + m.replace(".", "_"))
+
+
+_AUTO_INLINE = {}
+
+
+def auto_inline_contract(ip, relpath, qual):
+    """synthetic inline=True contract for a plain function / method of the repository that has no contract of its own
+    (typically a helper a refactoring has extracted); None when the function is missing, decorated, or a generator"""
+    key = (relpath, qual)
+    if key in _AUTO_INLINE:
+        return _AUTO_INLINE[key]
+    c = None
+    try:
+        from .contracts import find_function, Contract
+        node = find_function(ip.world.modctx(relpath).tree, qual)
+        is_gen = any(isinstance(n, (ast.Yield, ast.YieldFrom)) for n in ast.walk(node))
+        if isinstance(node, ast.FunctionDef) and not node.decorator_list and not is_gen:
+            c = Contract(relpath, qual, props=[], inline=True, notes="helper without a contract, inlined from its real AST")
+    except Exception:
+        c = None
+    _AUTO_INLINE[key] = c
+    return c
 
 
 def inline_contract(ip, st, c, args, kws):
@@ -882,6 +1058,10 @@ def elem_call(ip, st, el, meth, pos, kws):
         env["call_self"] = el                    # the element whose method is called
         for k, cl in enumerate(ip.c.at_call[meth]):
             ip.emit("call-site", "at-call %s#%d" % (meth, k), st, eval_spec(ip, st, env, cl, old=ip.entry))
+    if ip.c is not None and not ip.spec_mode and ip.c.ghost.get("call_count"):
+        # ghost counter of the calls of this element method made so far by the function under proof (spec form
+        # call_count('<method>'); at an at_call clause it still counts the EARLIER calls only); havocked at loop cuts
+        st.notes["cc_" + meth] = ADD(st.notes.get("cc_" + meth, I(0)), I(1))
     if meth == "__call__":
         if len(pos) == 1 and isinstance(pos[0], Opaque) and pos[0].sort == "V":
             f = reg.ufun("el_call", ["Obj", "V"], "V")
@@ -899,9 +1079,18 @@ def elem_call(ip, st, el, meth, pos, kws):
             t = T("(%s %s)" % (f, el.t.s), reg.lst("V"))
             ip.assume_wf(st, t)
             return [(st, ip.new_cell(st, IterCell(ip.lst_view(t), I(0))))]
+        if len(pos) == 1 and not kws:
+            from .lib_flow import abstract_call_on_list          # c(xs) / c(*xs) for a list xs of flow values
+            r = abstract_call_on_list(ip, st, el, pos[0])
+            if r is not None:
+                return r
         raise U("element call with arguments %r" % (pos,))
     if meth == "run":
         flow = pos[0]
+        if ip.c is not None and ip.c.ghost.get("run_consumes") and not ip.spec_mode:
+            from .lib_run import consumable, run_call        # the element pulls from the iterator it is given
+            if consumable(st, flow):
+                return [(st, run_call(ip, st, el, flow))]
         content = flow_remaining_term(ip, st, flow)
         f = reg.ufun("el_run", ["Obj", reg.lst("V")], reg.lst("V"))
         t = T("(%s %s %s)" % (f, el.t.s, content.s), reg.lst("V"))
@@ -1017,6 +1206,16 @@ def flow_remaining_term(ip, st, flow):
     if isinstance(flow, Ref) and isinstance(st.heap[flow.cid], IterCell):
         cell = st.heap[flow.cid]
         src = cell.src
+        if src is None and getattr(cell, "live", None) is not None and getattr(cell, "kind", None) is None:
+            # iter(<list>): delivers the list's items from the cursor on (the list as it is now, like a list passed directly)
+            lt = ip.deref(st, cell.live)
+            if lt.sort == sort and lit_int(cell.cursor) == 0:
+                return lt
+            src = ip.lst_view(lt)
+            cur = cell.cursor
+            return materialise(ip, st, View(SUB(src.len, cur), lambda i: src.get(ADD(cur, i))), sort)
+        if src is None:
+            raise U("remaining content of a special iterator")
         t = getattr(src, "term", None)
         if t is not None and lit_int(cell.cursor) == 0 and t.sort == sort:
             return t
@@ -1175,6 +1374,11 @@ def _sf_is_deep_copy(ip, e, st):
     """is_deep_copy(x): x is an object created during this call by copy.deepcopy (or handed out by a callee that
     documents a deep copy): it shares no mutable object, at any depth, with anything that existed before"""
     v = ip.ev1(e.args[0], st)
+    if isinstance(v, Ref) and ip.entry is None and not v.path:
+        # a PRECONDITION of the function under verification (assumed at entry): the argument shares no mutable object with
+        # anything else the function can reach -- recorded as provenance of the parameter's cell
+        st.notes["deep_copies"] = set(st.notes.get("deep_copies", ())) | {v.cid}
+        return Bool(TRUE)
     if isinstance(v, Ref):
         return Bool(TRUE if (v.cid in st.notes.get("deep_copies", ()) and v.cid not in ip.entry.heap and not v.path) else FALSE)
     if isinstance(v, Opaque) and v.sort == "Obj":
@@ -1203,6 +1407,26 @@ def _sf_yield_count(ip, e, st):
 
 
 SPEC_FORMS["yield_count"] = _sf_yield_count
+
+
+def _sf_call_count(ip, e, st):
+    """call_count('fill'): number of calls of that method of abstract elements (whatever the element) the function has made
+    so far; needs Contract(ghost={"call_count": True})"""
+    if ip.c is None or not ip.c.ghost.get("call_count"):
+        raise U("call_count() needs ghost={'call_count': True}")
+    a = e.args[0]
+    if not (isinstance(a, ast.Constant) and isinstance(a.value, str)):
+        raise U("call_count(<method name literal>)")
+    from .stmts import ELEMENT_METHODS
+    if a.value not in ELEMENT_METHODS:
+        raise U("call_count of a method whose counter is not havocked at loop cuts: " + a.value)
+    return Num(st.notes.get("cc_" + a.value, I(0)))
+
+
+SPEC_FORMS["call_count"] = _sf_call_count
+from .lib_run import _sf_run_input, _sf_loop_iter
+SPEC_FORMS["run_input"] = _sf_run_input
+SPEC_FORMS["loop_iter"] = _sf_loop_iter
 from .keymap import FORMS as _KM_FORMS
 SPEC_FORMS.update(_KM_FORMS)
 from .lib import FS_FORMS as _FS_FORMS
